@@ -359,20 +359,4 @@ theorem PInv_stepDiscard {s s' : State} {k : Key} (hi : PInv s) (h : stepDiscard
       · exact Or.inr (Or.inr hg)
 
 
-set_option maxHeartbeats 4000000 in
-theorem PInv_stepReadStep {s s' : State} {k : Key} (hi : PInv s) (h : stepReadStep s k = some s') : PInv s' := by
-  unfold stepReadStep readFrame at h
-  leaves h
-  all_goals subst h
-  all_goals first
-    | (refine PInv_of_same (s := s) rfl rfl rfl rfl rfl rfl ?_ hi; frsame; done)
-    | skip
-  all_goals (refine PInv_upd' (s := s) (k := k) hi (by simp_all) ?_ rfl rfl rfl ?_ ?_ rfl ?_)
-  all_goals first
-    | (intro k' hk'; red; simp [hk']; done)
-    | (red; simp_all [cntOf, szOf, frames] <;> omega)
-    | skip
-  all_goals (intro g hg; have hd := hi.dlen k; simp_all [frames])
-  all_goals (rcases hg with rfl | hg <;> [(simp only [List.length_drop]; omega); exact hd.2 g hg])
-
 end EraVerif.Proofs.Mux
